@@ -252,4 +252,5 @@ def check(run):
     p06.accept_queue_rules(run)
     import p07 as _p07
     _p07.abandoned_connect_rules(run)
+    _p07.peer_gone_rule(run)
     run.floor('R4', 4)
